@@ -49,6 +49,7 @@ Section ObjInd.
   Hypothesis HSet : forall l, Forall P l -> P (OSet l).
   Hypothesis HFset : forall l, Forall P l -> P (OFset l).
   Hypothesis HDict : forall ks vs, Forall P ks -> Forall P vs -> P (ODict ks vs).
+  Hypothesis HPending : forall k, P (OPending k).
 
   Fixpoint obj_ind' (o : obj) : P o :=
     let fix all (l : list obj) : Forall P l :=
@@ -58,6 +59,7 @@ Section ObjInd.
     | OBool b => HBool b | ONone => HNone
     | OList l => HList l (all l) | OTuple l => HTuple l (all l) | OSet l => HSet l (all l) | OFset l => HFset l (all l)
     | ODict ks vs => HDict ks vs (all ks) (all vs)
+    | OPending k => HPending k
     end.
 End ObjInd.
 
@@ -485,7 +487,7 @@ Qed.
 
 Lemma recvw_free : forall o, owf o = true -> recvw None (slice o) = RDeliver o.
 Proof.
-  induction o using obj_ind'; intros W; try reflexivity; try (destruct b; reflexivity).
+  induction o using obj_ind'; intros W; try discriminate W; try reflexivity; try (destruct b; reflexivity).
   - rewrite slice_int. reflexivity.
   - cbn [slice recvw slot_open slot_opentype child_of free_child negb]. cbn [owf] in W.
     rewrite (kids_deliver _ (fun _ => None)); [reflexivity|]. intros j x Hx. split; [reflexivity|].
@@ -570,6 +572,7 @@ Proof.
     + exact (eq_trans (recvw_any_open _ _) (recvw_free (OSet l) OW)).
     + exact (eq_trans (recvw_any_open _ _) (recvw_free (OFset l) OW)).
     + exact (eq_trans (recvw_any_open _ _) (recvw_free (ODict ks vs) OW)).
+    + discriminate OW.
   - (* Int *)
     destruct o; try discriminate. cbn [checkObject] in CO. cbn [wf] in W. rewrite slice_int. cbn [recvw slot_token taste].
     apply of_tv_ok. change (taster_of (CInt mb)) with (int_taster mb). rewrite <- (app_nil_r (int_taster mb)).
@@ -797,4 +800,21 @@ Example C02_result_partial_nonvacuous :
   let c := CList (CSet (CInt None) None None) None 0 in
   let w := slice (OList [OFset [OInt 1; OInt (2 ^ 70)]; OSet []]) in
   complete c = true /\ wwf w = true /\ recv_answer (Some c) w = Callback (OList [OFset [OInt 1; OInt (2 ^ 70)]; OSet []]).
+Proof. vm_compute. auto. Qed.
+
+(* a back-reference -- to an earlier complete object, or (o = OPending k) to a tuple that is still open -- is delivered
+   only if the constraint of the slot accepts the referenced object; a placeholder passes only "accept everything" slots *)
+Theorem reference_checked : forall c o v,
+  recvw (Some c) (WRef o) = RDeliver v -> v = o /\ checkObject c o = true.
+Proof.
+  intros c o v H. cbn [recvw] in H. destruct (slot_open (Some c)); try discriminate.
+  change reference_rechecks_object with true in H. cbn [negb orb] in H.
+  destruct (checkObject c o) eqn:E; [inversion H; auto|discriminate].
+Qed.
+
+Example reference_checked_nonvacuous :
+  recvw (Some (CList CAny None 0)) (WOpen OtList [WRef (OPending 1)]) = RDeliver (OList [OPending 1]) /\
+  recv_answer (Some (CTuple [CList (CText None 0) None 0])) (WOpen OtTuple [WOpen OtList [WRef (OPending 1)]]) = Errback /\
+  recv_answer (Some (CTuple [CDict (CBytes None 0) (CList (CInt (Some 1024)) None 0) None]))
+              (WOpen OtTuple [WOpen OtDict [WStr false 1 [107]; WRef (OPending 1)]]) = Errback.
 Proof. vm_compute. auto. Qed.
